@@ -125,9 +125,31 @@ theorem projectSlice_nonarray_count (s : PState) (d : Doc) (path : String) (v : 
 
 /-! ## §2 `$elemMatch` -/
 
-/-- the query of a projection `$elemMatch` evaluated on one array element -/
+/-- a query made of field conditions only (no operator key) applies to embedded documents only:
+    other elements are not eligible and are skipped without evaluating the query -/
+def elemEligible (query : Doc) (item : V) : Bool :=
+  !((query.all fun (k, _) => !isOpKey k) && !item.isDoc)
+
+/-- the query of a projection `$elemMatch` on one array element: "not matched" for an element that
+    is not eligible, else the query evaluated on the virtual document `{item: x}` -/
 def elemMatches (sch : SchemaEval) (query : Doc) (item : V) : Res Unit :=
-  mProcess sch [("item", item)] query "item" false
+  if elemEligible query item then mProcess sch [("item", item)] query "item" false
+  else .error .notMatched
+
+theorem firstElemMatch_cons (sch : SchemaEval) (query : Doc) (item : V) (r : List V) :
+    firstElemMatch sch query (item :: r) =
+      match elemMatches sch query item with
+      | .error .notMatched => firstElemMatch sch query r
+      | .error e => .error e
+      | .ok _ => .ok (some item) := by
+  rw [firstElemMatch]
+  simp only [elemMatches, elemEligible]
+  split
+  · next h => simp [h]
+  · next h =>
+    have h' : ((query.all fun x => !isOpKey x.fst) && !item.isDoc) = false := by simpa using h
+    simp only [h', Bool.not_false, ↓reduceIte]
+    split <;> simp_all
 
 theorem firstElemMatch_some {sch : SchemaEval} {query : Doc} {arr : List V} {x : V} :
     firstElemMatch sch query arr = .ok (some x) ↔
@@ -136,29 +158,27 @@ theorem firstElemMatch_some {sch : SchemaEval} {query : Doc} {arr : List V} {x :
   induction arr with
   | nil => simp [firstElemMatch]
   | cons item r ih =>
-    rw [firstElemMatch]
+    rw [firstElemMatch_cons]
     constructor
     · intro h
       split at h
       · next hm =>
         obtain ⟨pre, post, e, hp, hx⟩ := ih.mp h
-        exact ⟨item :: pre, post, by simp [e], by simpa [elemMatches, hm] using hp, hx⟩
+        exact ⟨item :: pre, post, by simp [e], by simpa [hm] using hp, hx⟩
       · cases h
       · next u hm =>
         cases h
-        exact ⟨[], r, rfl, by simp, by simpa [elemMatches] using hm⟩
+        exact ⟨[], r, rfl, by simp, hm⟩
     · rintro ⟨pre, post, e, hp, hx⟩
       cases pre with
       | nil =>
         simp only [List.nil_append, List.cons.injEq] at e
         obtain ⟨rfl, rfl⟩ := e
-        simp only [elemMatches] at hx
         simp [hx]
       | cons y pre' =>
         simp only [List.cons_append, List.cons.injEq] at e
         obtain ⟨rfl, rfl⟩ := e
         have := hp item (by simp)
-        simp only [elemMatches] at this
         simp only [this]
         exact ih.mpr ⟨pre', post, rfl, fun y hy => hp y (by simp [hy]), hx⟩
 
@@ -168,16 +188,15 @@ theorem firstElemMatch_none {sch : SchemaEval} {query : Doc} {arr : List V} :
   induction arr with
   | nil => simp [firstElemMatch]
   | cons item r ih =>
-    rw [firstElemMatch]
+    rw [firstElemMatch_cons]
     constructor
     · intro h
       split at h
-      · next hm => simpa [elemMatches, hm] using ih.mp h
+      · next hm => simpa [hm] using ih.mp h
       · cases h
       · cases h
     · intro h
       have h1 := h item (by simp)
-      simp only [elemMatches] at h1
       simp only [h1]
       exact ih.mpr fun y hy => h y (by simp [hy])
 
@@ -188,23 +207,22 @@ theorem firstElemMatch_error {sch : SchemaEval} {query : Doc} {arr : List V} {e 
   induction arr with
   | nil => simp [firstElemMatch]
   | cons item r ih =>
-    rw [firstElemMatch]
+    rw [firstElemMatch_cons]
     constructor
     · intro h
       split at h
       · next hm =>
         obtain ⟨pre, x, post, e', hp, hx⟩ := ih.mp h
-        exact ⟨item :: pre, x, post, by simp [e'], by simpa [elemMatches, hm] using hp, hx⟩
+        exact ⟨item :: pre, x, post, by simp [e'], by simpa [hm] using hp, hx⟩
       · next e2 hne hm =>
         cases h
-        exact ⟨[], item, r, rfl, by simp, by simpa [elemMatches] using hm, hne⟩
+        exact ⟨[], item, r, rfl, by simp, hm, hne⟩
       · cases h
     · rintro ⟨pre, x, post, e', hp, hx, hne⟩
       cases pre with
       | nil =>
         simp only [List.nil_append, List.cons.injEq] at e'
         obtain ⟨rfl, rfl⟩ := e'
-        simp only [elemMatches] at hx
         rw [hx]
         split
         · next h => cases h; exact absurd rfl hne
@@ -214,9 +232,26 @@ theorem firstElemMatch_error {sch : SchemaEval} {query : Doc} {arr : List V} {e 
         simp only [List.cons_append, List.cons.injEq] at e'
         obtain ⟨rfl, rfl⟩ := e'
         have := hp item (by simp)
-        simp only [elemMatches] at this
         simp only [this]
         exact ih.mpr ⟨pre', x, post, rfl, fun y hy => hp y (by simp [hy]), hx, hne⟩
+
+/-- "matches" unfolded: the element is eligible and the query accepts it -/
+theorem elemMatches_ok_iff (sch : SchemaEval) (query : Doc) (x : V) :
+    elemMatches sch query x = .ok () ↔
+      elemEligible query x = true ∧ mProcess sch [("item", x)] query "item" false = .ok () := by
+  simp only [elemMatches]
+  split
+  · next h => simp [h]
+  · next h => simp [h]
+
+/-- "does not match" unfolded: not eligible, or the query rejects it -/
+theorem elemMatches_notMatched_iff (sch : SchemaEval) (query : Doc) (x : V) :
+    elemMatches sch query x = .error .notMatched ↔
+      elemEligible query x = false ∨ mProcess sch [("item", x)] query "item" false = .error .notMatched := by
+  simp only [elemMatches]
+  split
+  · next h => simp [h]
+  · next h => simp [h]
 
 /-- `$elemMatch` marks its path as included-but-not-copied -/
 def PState.elemMatchMark (s : PState) (path : String) : PState :=
